@@ -60,6 +60,18 @@ def sites():
         "mul_minus1": (1, lambda a: a * -1.0, "mulRealH", "mulUnitU"),
         "mul_i": (1, lambda a: a * 1j, "mulImagH", "mulUnitU"),
         "mul_complex": (1, lambda a: a * (1 + 1j), "mulImagH", "mulNonUnitU"),
+        # a number next to a square object (promoted to a multiple of the identity)
+        "sadd_real": (1, lambda a: a + 0.5, "saddRealH", None),
+        "rsadd_real": (1, lambda a: -0.5 + a, "saddRealH", None),
+        "ssub_real": (1, lambda a: a - 0.5, "saddRealH", None),
+        "rssub_real": (1, lambda a: 0.5 - a, "saddRealH", None),
+        "sadd_imag_pos": (1, lambda a: a + 0.15j, "saddImagH", None),
+        "sadd_imag_neg": (1, lambda a: a + (-0.15j), "saddImagH", None),
+        "rsadd_imag_neg": (1, lambda a: (-0.15j) + a, "saddImagH", None),
+        "ssub_imag_pos": (1, lambda a: a - 0.15j, "saddImagH", None),
+        "rssub_imag_neg": (1, lambda a: (-0.15j) - a, "saddImagH", None),
+        "rssub_imag_pos": (1, lambda a: 0.15j - a, "saddImagH", None),
+        "sadd_complex": (1, lambda a: a + (1 - 0.25j), "saddImagH", None),
     }
 
 
